@@ -771,6 +771,9 @@ func (e *execEngine) query(ws []string) string {
 		if ws[1] == "role" {
 			return fmt.Sprintf("- ## status=%v type=%v", m["status"], m["role_type"])
 		}
+		if ws[1] == "rule" {
+			return fmt.Sprintf("- ## status=%v addr=%v master=%v", m["status"], m["address"], m["master"])
+		}
 		return fmt.Sprintf("- ## status=%v", m["status"])
 	case "dumpdiff":
 		// implementation-only: storage keys on which replica i differs from replica 0
@@ -834,7 +837,10 @@ func (e *execEngine) query(ws []string) string {
 			args = append(args, arg)
 		}
 		r := n.view(resolveAddr(ws[1]), ws[2], args...)
-		return "- ## " + retClass(r)
+		// what the view ledger itself reads for the simulated sender afterwards (it never sends a real transaction and holds
+		// nothing): anything but 0/0 is state a read-only execution left behind
+		v := acct("viewer").addr
+		return fmt.Sprintf("- ## %s vstate=%d/%s", retClass(r), n.viewLdg.GetNonce(v), n.viewLdg.GetBalance(v).String())
 	}
 	return "bad-op"
 }
